@@ -1,6 +1,7 @@
 import PyomaVerif.Codec
 import PyomaVerif.Model.Cpx
 import PyomaVerif.Model.Merge
+import PyomaVerif.Model.MergeDriver
 open Lean PV PV.Codec PV.Merge
 namespace PV.Ops.C02
 
@@ -19,11 +20,11 @@ def msfOp (j : Json) : Except String Json := do
   pure (cpxToJson (msf Cpx.realPart x y))
 
 /-- `{"phis": [setup][row][mode] complex, "refs": [[..]..]}` → merged `[row][mode]`
-    (`Merge.mergeModeShapes`); the error is the name of the exception numpy raises. -/
+    (`Merge.mergeModeShapesQ`); the error is the name of the exception numpy raises. -/
 def mergeOp (j : Json) : Except String Json := do
   let phis ← listOf (listOf (listOf cpxOfJson)) (← field j "phis")
   let refs ← listOf (listOf natOfJson) (← field j "refs")
-  let m ← mergeModeShapes Cpx.realPart phis refs
+  let m ← mergeModeShapesQ phis refs
   pure (listToJson (listToJson cpxToJson) m)
 
 def flattenOp (j : Json) : Except String Json := do
@@ -52,12 +53,12 @@ def algResOfJson (j : Json) : Except String (AlgRes Rat (Cpx Rat)) := do
         ← listOf (listOf cpxOfJson) (← field j "Phi")⟩
 
 /-- `{"names": [..], "setups": [setup][algorithm]{Fn, Xi, Phi}, "ref_ind": [[..]..]}` →
-    `[[name, {Phi, Fn, Fn_cov, Xi, Xi_cov}], ..]` in dictionary order (`Merge.mergeResults`) -/
+    `[[name, {Phi, Fn, Fn_cov, Xi, Xi_cov}], ..]` in dictionary order (`Merge.mergeResultsQ`) -/
 def mergeResultsOp (j : Json) : Except String Json := do
   let names ← listOf strOfJson (← field j "names")
   let setups ← listOf (listOf algResOfJson) (← field j "setups")
   let refInd ← listOf (listOf natOfJson) (← field j "ref_ind")
-  let out ← mergeResults ratSqrt Cpx.realPart names setups refInd
+  let out ← mergeResultsQ ratSqrt names setups refInd
   pure (listToJson (fun (g : String × PoserRes Rat (Cpx Rat)) => Json.arr #[Json.str g.1, Json.mkObj [
       ("Phi", listToJson (listToJson cpxToJson) g.2.Phi),
       ("Fn", listToJson ratToJson g.2.Fn), ("Fn_cov", listToJson ratToJson g.2.Fn_cov),
